@@ -1,4 +1,6 @@
-//! Shared harness utilities: deterministic PRNG, Coq term formatting, panic capture.
+//! Shared harness utilities: deterministic PRNG, Coq term formatting, panic capture, CLI driver.
+//! Included by every property binary with `#[path = "../util.rs"] mod util;`.
+#![allow(dead_code)]
 use std::panic::{catch_unwind, AssertUnwindSafe};
 
 /// SplitMix64: every random choice of a run derives from VERIF_SEED through this.
@@ -90,4 +92,27 @@ pub fn drive<P: Property>(a: &Args) {
         let c = P::gen(&mut r);
         emit(format!("seed:{}", s), P::exec(&c));
     }
+}
+
+/// CLI of every property binary:  cXX --seed S --n N [--tier quick|thorough] [--ids FILE]
+pub fn run_main<P: Property>() {
+    let argv: Vec<String> = std::env::args().collect();
+    let mut a = Args { seed: 1, n: 100, tier: "quick".into(), ids: None };
+    let mut i = 1;
+    while i < argv.len() {
+        match argv[i].as_str() {
+            "--seed" if i + 1 < argv.len() => { a.seed = argv[i + 1].parse().unwrap_or(1); i += 2; }
+            "--n" if i + 1 < argv.len() => { a.n = argv[i + 1].parse().unwrap_or(100); i += 2; }
+            "--tier" if i + 1 < argv.len() => { a.tier = argv[i + 1].clone(); i += 2; }
+            "--ids" if i + 1 < argv.len() => {
+                let s = std::fs::read_to_string(&argv[i + 1]).unwrap_or_default();
+                a.ids = Some(s.lines().map(|l| l.trim().to_string()).filter(|l| !l.is_empty()).collect());
+                i += 2;
+            }
+            _ => { i += 1; }
+        }
+    }
+    // panics are captured by `guarded`; keep stderr quiet
+    std::panic::set_hook(Box::new(|_| {}));
+    drive::<P>(&a);
 }
